@@ -18,9 +18,11 @@ Pt(p) == <<p[1], p[2]>>
 Cells2(cl) == [i \in 1..Len(cl) |-> Pt(cl[i])]
 Frag(f) ==
   IF f.k = "L" THEN [k |-> "L", s |-> Pt(f.s), e |-> Pt(f.e), b |-> B(f.b), cells |-> Cells2(f.cells)]
-  ELSE IF f.k = "A" THEN [k |-> "A", s |-> Pt(f.s), e |-> Pt(f.e), r |-> f.r, sw |-> B(f.sw), cells |-> Cells2(f.cells)]
+  ELSE IF f.k = "A" THEN [k |-> "A", s |-> Pt(f.s), e |-> Pt(f.e), r |-> f.r, sw |-> B(f.sw), mj |-> B(f.mj), cells |-> Cells2(f.cells)]
+  ELSE IF f.k = "C" THEN [k |-> "C", c |-> Pt(f.c), r |-> f.r]
   ELSE IF f.k = "R" THEN [k |-> "R", s |-> Pt(f.s), e |-> Pt(f.e), r |-> f.r, b |-> B(f.b)]
   ELSE [k |-> "T", cell |-> Pt(f.cell), s |-> f.t, cells |-> Cells2(f.cells)]
+NoCells(f) == IF f.k = "A" THEN [k |-> "A", s |-> f.s, e |-> f.e, r |-> f.r, sw |-> f.sw, mj |-> f.mj] ELSE f
 Frags(fs) == [i \in 1..Len(fs) |-> Frag(fs[i])]
 Groups(gs) == [i \in 1..Len(gs) |-> Frags(gs[i])]
 Span2(sp) == [i \in 1..Len(sp) |-> Pt(sp[i])]
@@ -37,8 +39,9 @@ Step(ev) ==
          /\ bad' = Mark(logged = SpansOf(cs), "spans")
                    \cup (IF \A i, j \in 1..Len(logged) : i # j => ~SpanCan(logged[i], logged[j]) THEN {} ELSE {<<l, "inv:span-fixpoint">>})
          /\ UNCHANGED <<cs, merged, contacts, rejects>> /\ ninv' = ninv + 1
-    [] ev.ev = "circle" ->     \* on the modelled alphabet the catalogue lookup is the identity
-         /\ bad' = Mark(ev.accepted = 0 /\ Span2(ev.rest) = Span2(ev.span), "circle")
+    [] ev.ev = "circle" ->
+         LET model == EndorseCat(cs, Span2(ev.span)) IN
+         /\ bad' = Mark([i \in 1..Len(ev.accepted) |-> NoCells(Frag(ev.accepted[i]))] = model[1] /\ Span2(ev.rest) = model[2], "circle")
          /\ UNCHANGED <<cs, merged, contacts, rejects, ninv>>
     [] ev.ev = "merged" ->
          LET logged == Frags(ev.frags) model == Merged(cs, Span2(ev.span)) IN
@@ -58,7 +61,9 @@ Step(ev) ==
     [] ev.ev = "reendorse" ->
          LET logged == [i \in 1..Len(ev.rejects) |-> Span2(ev.rejects[i])]
              model == MergeRec([i \in 1..Len(rejects) |-> GroupCells(rejects[i])], SpanCan, SpanMrg) IN
-         /\ bad' = Mark(logged = model /\ ev.accepted = 0, "reendorse")
+         /\ bad' = Mark(logged = [i \in 1..Len(model) |-> EndorseCat(cs, model[i])[2]]
+                         /\ [i \in 1..Len(ev.accepted) |-> NoCells(Frag(ev.accepted[i]))] = FoldLeft(LAMBDA lst, sp : lst \o EndorseCat(cs, sp)[1], <<>>, model),
+                         "reendorse")
          /\ UNCHANGED <<cs, merged, contacts, rejects, ninv>>
     [] OTHER -> bad' = bad /\ UNCHANGED <<cs, merged, contacts, rejects, ninv>>
 Next == l <= Len(Rec) /\ l' = l + 1 /\ Step(Rec[l])
